@@ -67,14 +67,26 @@ func (r *Registry[M]) Has(schema ZodSchema) bool {
 // Range iterates over the schemas and metadata in the registry.
 // If the callback function returns false, iteration stops.
 //
-// Important: The callback is executed while holding a read lock. Avoid
-// performing expensive operations or calling back into the registry within
-// the callback, as this may cause deadlocks or performance issues.
+// The callback runs on a snapshot of the entries taken under the read lock and
+// is invoked after the lock has been released, so it may call back into the
+// registry (directly, or through chaining methods such as Describe and Meta,
+// which read and write GlobalRegistry) without deadlocking. Entries added or
+// removed while the iteration is in progress are not reflected in it.
 func (r *Registry[M]) Range(f func(schema ZodSchema, m M) bool) {
+	type entry struct {
+		schema ZodSchema
+		meta   M
+	}
+
 	r.mu.RLock()
-	defer r.mu.RUnlock()
+	entries := make([]entry, 0, len(r.meta))
 	for k, v := range r.meta {
-		if !f(k, v) {
+		entries = append(entries, entry{k, v})
+	}
+	r.mu.RUnlock()
+
+	for _, e := range entries {
+		if !f(e.schema, e.meta) {
 			break
 		}
 	}
